@@ -183,4 +183,13 @@ def c04_7(c: Ctx) -> None:
     check_blocking_wait_unreachable_with_lock(c)
 
 
+@ob('C04.8', 'CTX', 'the in-handler branch of `await event` is selected by inside_handler_context / holds_global_lock of the *awaiting handler\'s own* context: each async handler runs in '
+    'its own task (private context snapshot), never inline in execute_handler\'s task, whose context is shared between the handlers of a parallel_handlers bus (same obligation as '
+    'C09.8) — otherwise a sibling\'s cleanup resets the flag and the awaiting handler blocks on the completion signal while holding the lock')
+def c04_8(c: Ctx) -> None:
+    from .c09 import c09_8
+
+    c09_8(c)
+
+
 OBLIGATIONS = ob.obs
